@@ -31,8 +31,18 @@ def r1(prog, rep):
     SC = prog.machine("SubChannel")
     term = [s for s in SC.states if all(r.enter == s for r in SC.rows_from(s))]
     if len(term) != 1:
+        # several states without an exit: the closed one is the one whose rows do nothing at all
+        term = [s for s in term if all(not r.outputs for r in SC.rows_from(s))]
+    if len(term) != 1:
         raise AnalysisError("SubChannel: cannot identify the closed state (%s)" % term)
     closed = term[0]
+    # a row that tells the manager "this subchannel is closed" (the id is forgotten) ends in the closed state
+    for r in SC.rows.values():
+        if any(c.endswith(".subchannel_closed") for c in row_calls(SC, r)):
+            rep.check("C13.R1", "SubChannel %s.%s reports the subchannel closed to the manager and enters %s" % (r.src, r.inp, closed),
+                      r.enter == closed, r.site, key="C13.R1:closed-entered:%s.%s" % (r.src, r.inp),
+                      what="SubChannel %s.%s tells the manager the subchannel is closed but stays in %s, where local writes are still sent "
+                           "(no error after close, DATA for a forgotten id on the wire)" % (r.src, r.inp, r.enter))
     half_entry = {r.enter for r in SC.rows_on("connect_protocol_half")}
     paths = simple_paths(SC, closed)
     if len(paths) < 4:
